@@ -459,9 +459,10 @@ let run_iter (src : string) : string =
             "midlast:" ^ last idsm_l;
             "midnth1:" ^ nth readsm_l 1 ]
       in
+      let free = (let (r, _), _ = M.eval_mut oracle n M.empty_hashmap [] in outcome_text value_text r) in
       Printf.sprintf
-        "OK ids[%s] vars[%s] reads[%s] writes[%s] fns[%s] nodes[%s] ops[%s] idsm[%s] varsm[%s] readsm[%s] writesm[%s] fnsm[%s] via<%s> adapt<%s> renamed%s"
-        a b c d e nodes opsm am bm cm dm em others adapt (tree_text n5)
+        "OK ids[%s] vars[%s] reads[%s] writes[%s] fns[%s] nodes[%s] ops[%s] idsm[%s] varsm[%s] readsm[%s] writesm[%s] fnsm[%s] via<%s> adapt<%s> free<%s> renamed%s"
+        a b c d e nodes opsm am bm cm dm em others adapt free (tree_text n5)
 
 let fmt_oracle : M.fmt_oracle =
   { M.fo_float_display = (fun x -> str_of_hex (oracle_ask ("fts " ^ float_hex x)));
